@@ -279,8 +279,7 @@ def run(chk):
     sc, mod = _load()
     from symex import loader
 
-    chk.functions = loader.describe([mod._gaussian, mod._lorentzian, mod.PseudoVoigtModel._call, mod.PolynomialModel._call, mod.CompositeModel._call,
-                                     mod.GaussianModel.fwhm, mod.LorentzianModel.fwhm, mod.PseudoVoigtModel.fwhm, mod.Model.__call__, mod.Model.with_prefix])
+    chk.functions = loader.describe_exprs(['mod._gaussian', 'mod._lorentzian', 'mod.PseudoVoigtModel._call', 'mod.PolynomialModel._call', 'mod.CompositeModel._call', 'mod.GaussianModel.fwhm', 'mod.LorentzianModel.fwhm', 'mod.PseudoVoigtModel.fwhm', 'mod.Model.__call__', 'mod.Model.with_prefix'], {**globals(), **locals()})
     pref = PREFIXES[:4] if chk.tier == 'quick' else PREFIXES
     run_jobs(chk, job_peak, [(k, p) for k in ('gaussian', 'lorentzian', 'pseudo_voigt') for p in pref])
     degs = [1, 2, 3, 6] if chk.tier == 'quick' else [1, 2, 3, 4, 5, 6]
